@@ -5,4 +5,5 @@ cd /verif
 export CARGO_NET_OFFLINE=true
 mkdir -p .target evidence replays
 ( cd harness && cargo build --release --offline 2>&1 | tail -3 )
+( cd harness-sched && CARGO_TARGET_DIR=/verif/.target-sched cargo build --release --offline 2>&1 | tail -2 )
 ( cd /repo && CARGO_TARGET_DIR=/verif/.target/repo-cli cargo build --offline -p warcraft-rs 2>&1 | tail -2 )
